@@ -30,7 +30,7 @@ func (c *Codec) NewReader(r io.Reader) io.ReadCloser {
 	} else {
 		z = lz4.NewReader(r)
 	}
-	return &reader{Reader: z}
+	return &reader{z: z}
 }
 
 // NewWriter implements the compress.Codec interface.
@@ -44,11 +44,21 @@ func (c *Codec) NewWriter(w io.Writer) io.WriteCloser {
 	return &writer{z: z}
 }
 
-type reader struct{ *lz4.Reader }
+// reader does not embed *lz4.Reader: its WriteTo method is only valid on a
+// reader that has not been read from yet, and would otherwise be picked by
+// io.Copy after a partial Read.
+type reader struct{ z *lz4.Reader }
+
+func (r *reader) Read(b []byte) (int, error) {
+	if r.z == nil {
+		return 0, io.ErrClosedPipe
+	}
+	return r.z.Read(b)
+}
 
 func (r *reader) Close() (err error) {
-	if z := r.Reader; z != nil {
-		r.Reader = nil
+	if z := r.z; z != nil {
+		r.z = nil
 		z.Reset(nil)
 		readerPool.Put(z)
 	}
